@@ -2,6 +2,7 @@ package dbworld
 
 import (
 	"fmt"
+	"strings"
 
 	"verifsim/model"
 )
@@ -142,11 +143,44 @@ func (e *Env) GenOp(w []int, odd bool) model.Op {
 // DrawNames picks the run's name pool.
 func (e *Env) DrawNames(n int) {
 	seen := map[string]bool{}
-	for len(e.Names) < n {
-		nm := namePool[e.T.Choice(len(namePool))]
-		if !seen[nm] {
+	add := func(nm string) {
+		if !seen[nm] && len(e.Names) < n {
 			seen[nm] = true
 			e.Names = append(e.Names, nm)
+		}
+	}
+	// a bounded number of draws (a shrunk tape answers every draw with 0),
+	// then the pool in order
+	for i := 0; i < 4*n && len(e.Names) < n; i++ {
+		add(namePool[e.T.Choice(len(namePool))])
+	}
+	for _, nm := range namePool {
+		add(nm)
+	}
+	// Names that path-clean to another name of the run: to the store they
+	// are different secrets (names are opaque strings).
+	if e.T.Bool(1, 3) {
+		for k, na := 0, e.T.Range(1, 2); k < na; k++ {
+			base := e.Names[e.T.Choice(len(e.Names))]
+			var alias string
+			switch e.T.Choice(6) {
+			case 0:
+				alias = "dev/../" + base
+			case 1:
+				alias = "./" + base
+			case 2:
+				alias = base + "/."
+			case 3:
+				alias = strings.Replace(base, "/", "//", 1)
+			case 4:
+				alias = base + "/../" + base
+			default:
+				alias = "/" + base
+			}
+			if !seen[alias] {
+				seen[alias] = true
+				e.Names = append(e.Names, alias)
+			}
 		}
 	}
 }
